@@ -59,9 +59,9 @@ def project(o, kind, wav, tol=1e-9, stored_unit=None, read_unit=None):
         if stored_unit is not None and read_unit != stored_unit:
             # value in read_unit = value in stored_unit * to_base(stored) / to_base(read), with THIS position's frequency
             fac = to_base(stored_unit, nu) / to_base(read_unit, nu)
-        arrs = [('flux', (o.flux.value / fac)[None, ...], False), ('error', (o.error.value / fac)[None, ...], True)]
+        arrs = [('flux', (o.flux.value / fac)[None, ...], False), ('error', (o.error.to(o.flux.unit).value / fac)[None, ...], True)]       # (the error may be held in another unit)
     else:
-        arrs = [('val', o.val.value, False)] + ([('unc', o.unc.value, True)] if o.unc is not None else [])
+        arrs = [('val', o.val.value, False)] + ([('unc', o.unc.to(o.val.unit).value, True)] if o.unc is not None else [])
     for nm, arr, isu in arrs:
         for m in range(arr.shape[0]):
             for a in range(arr.shape[1]):
@@ -102,7 +102,7 @@ def replay_behaviour(col, b, rng, tmpdir, tag):
                     obj = pw.sed_object('model_x', wav, aps, lambda a, w: val(mpick, a, w), lambda a, w: unc(mpick, a, w), st['axis'], flux_unit=funit)
                 else:
                     cnames = ['mod%02d' % ((i * 7 + 3) % nm) for i in range(nm)] if nm in (2, 3, 4, 5, 6) and 7 % nm else ['mod%02d' % (nm - 1 - i) for i in range(nm)]
-                    obj = pw.cube_object(cnames, wav, aps, val, unc, st['axis'], with_unc=st['unc'], flux_unit=funit)
+                    obj = pw.cube_object(cnames, wav, aps, val, unc, st['axis'], with_unc=st['unc'], flux_unit=funit, unc_twin=bool(nw % 2))
             elif st['op'] == 'write':
                 path = os.path.join(tmpdir, '%s_%d.fits' % (tag, si))
                 obj.write(path)
